@@ -226,8 +226,9 @@ impl<Dst: Write> TableBuilder<Dst> {
         digest.update(&data);
         digest.update(&[ctype as u8; TABLE_BLOCK_COMPRESS_LEN]);
 
-        self.dst.write(&data)?;
-        self.dst.write(&[ctype as u8; TABLE_BLOCK_COMPRESS_LEN])?;
+        self.dst.write_all(&data)?;
+        self.dst
+            .write_all(&[ctype as u8; TABLE_BLOCK_COMPRESS_LEN])?;
         self.dst.write_fixedint(mask_crc(digest.finalize()))?;
 
         let handle = BlockHandle::new(self.offset, data.len());
@@ -279,7 +280,8 @@ impl<Dst: Write> TableBuilder<Dst> {
         let mut buf = [0; FULL_FOOTER_LENGTH];
         footer.encode(&mut buf);
 
-        self.offset += self.dst.write(&buf[..])?;
+        self.dst.write_all(&buf[..])?;
+        self.offset += FULL_FOOTER_LENGTH;
         self.dst.flush()?;
         Ok(self.offset)
     }
